@@ -542,18 +542,40 @@ def run(tier, seed):
 
         def returns_coroutine(x):
             return plain(x)
+
+        class _Aw:
+            def __init__(self, x):
+                self.x = x
+
+            def __await__(self):
+                log.append(("body", self.x))
+                return self.x + 1
+                yield
+
+        def returns_awaitable_object(x):
+            return _Aw(x)
+
+        import types as _types
+
+        @_types.coroutine
+        def generator_based(x):
+            log.append(("body", x))
+            return x + 1
+            yield
         out = []
         for arg in (report, None):
             for name, fn in (("async def", plain), ("callable object", CallObj()), ("function returning a coroutine", returns_coroutine),
-                             ("partial", _ft.partial(plain)), ("cached", cache_deco(plain))):
-                del log[:]
-                try:
-                    deco = notifying(arg)
-                    wrapped = deco(fn)
-                    res = _drv(wrapped(5))
-                    out.append((name, arg is not None, "ok", res, list(log)))
-                except BaseException as e:  # noqa
-                    out.append((name, arg is not None, "raised", type(e).__name__, list(log)))
+                             ("partial", _ft.partial(plain)), ("cached", cache_deco(plain)),
+                             ("function returning an awaitable object", returns_awaitable_object), ("types.coroutine function", generator_based)):
+                for call_args in ((5,), (), (5, 6)):         # fitting arguments, a missing one, one too many (the call itself fails)
+                    del log[:]
+                    try:
+                        deco = notifying(arg)
+                        wrapped = deco(fn)
+                        res = _drv(wrapped(*call_args))
+                        out.append((name, arg is not None, call_args, "ok", res, list(log)))
+                    except BaseException as e:  # noqa
+                        out.append((name, arg is not None, call_args, "raised", type(e).__name__, list(log)))
         return out
     try:
         got = decorate_variants(a.contextmanager, a.lru_cache)
@@ -561,7 +583,7 @@ def run(tier, seed):
         why = None
         for g, w in builtins.zip(got, want):
             if g != w:
-                why = "manager argument %s, decorated callable %r: asyncstdlib %r, contextlib %r" % ("a coroutine function" if g[1] else "None", g[0], g[2:], w[2:])
+                why = "manager argument %s, decorated callable %r called with %r: asyncstdlib %r, contextlib %r" % ("a coroutine function" if g[1] else "None", g[0], g[2], g[3:], w[3:])
                 break
     except BaseException as e:  # noqa
         why = "failed with %r" % (e,)
